@@ -28,6 +28,7 @@ type orderGate struct {
 	turn     int
 	timedOut bool
 	rounds   int
+	timer    *time.Timer
 	Observed []string // ids in the order their calls returned
 }
 
@@ -45,15 +46,14 @@ func (g *orderGate) attach(f *FakeDocker) {
 	f.Done = g.leave
 	// safety valve: if the calls never become concurrent (e.g. the code under test was changed to
 	// open logs sequentially) do not deadlock; let everything through and record it.
-	go func() {
-		time.Sleep(3 * time.Second)
+	g.timer = time.AfterFunc(3*time.Second, func() {
 		g.mu.Lock()
 		if g.arrived < g.n && g.rounds == 0 {
 			g.timedOut = true
 			g.cond.Broadcast()
 		}
 		g.mu.Unlock()
-	}()
+	})
 }
 
 func (g *orderGate) enter(id string) {
@@ -87,6 +87,9 @@ func (g *orderGate) leave(id string) {
 		g.turn = 0
 		g.arrived = 0
 		g.rounds++
+		if g.timer != nil {
+			g.timer.Stop() // the safety valve is only for the first round
+		}
 	}
 	g.cond.Broadcast()
 	g.mu.Unlock()
